@@ -417,8 +417,139 @@ def check_stateless(sess: Session, run, key_prefix, meta, outputs=None, check_en
                 "cyclic_T": T,
             }
         )
+    if getattr(ref, "loop_outputs", None):
+        findings += check_loop_outputs(sess, run, key_prefix, zev, zref, set(names))
     if check_entities:
         findings += check_entity_conditions(sess, run, key_prefix, zev, ref)
+    return findings
+
+
+def check_loop_outputs(sess, run, key_prefix, zev, zref, top_names):
+    """"A for loop equals its unrolling" for results declared in the body that nothing consumes: every iteration
+    exposes its own result.  The blueprint must carry exactly one observation point labelled with the name per
+    iteration, and there must be ONE assignment of observation points to iterations under which
+        exists inputs. observed_j != reference_pi(j)      is UNSAT.
+    Candidate assignments are those consistent at a concrete valuation that tells the iterations apart; every
+    candidate is decided by the solver (and every model replayed)."""
+    import itertools
+
+    findings = []
+    ref = zref()
+    d = sess.zd
+    for name, refs in ref.loop_outputs.items():
+        key = f"{key_prefix}:{name}[per-iteration]"
+        if name in top_names or len(refs) > 6 or not all(isinstance(r, Sig) for r in refs):
+            continue
+        pts = sess.anchor_of(name)
+        how = "anchor"
+        if not pts:
+            pts = sess.const_producer_of(name)
+            how = "const"
+        if len(pts) != len(refs):
+            findings.append({"key": key, "what": f"loop-body result {name}: {len(refs)} iterations declare it and nothing consumes it, but the blueprint has {len(pts)} observation points ({how}) labelled {name}", "kind": "loop-anchor-count", "closed": True})
+            continue
+
+        def observe(ev, pt, t, how=how):
+            if how == "anchor":
+                return ev.read_all(pt.num, t)
+            vals = {}
+            for s_ in ev.U:
+                v = ev._const_out(pt, s_, t)
+                vals[s_] = v if v is not None else ev.d.const(0)
+            return vals
+
+        try:
+            try:
+                T = None
+                obs = [observe(zev, p_, None) for p_ in pts]
+            except Cyclic:
+                T = settle_ticks(zev) + 2
+                obs = [observe(zev, p_, T) for p_ in pts]
+        except Unsupported as exc:
+            run.inconc(key, f"unsupported: {exc}")
+            continue
+        carriers = []
+        ok = True
+        for j, p_ in enumerate(pts):
+            cands = {r.type for r in refs if r.type}
+            hint = sess.carrier_hint(p_) if how == "anchor" else None
+            carriers.append((cands, hint))
+        pre = list(getattr(ref, "preconditions", []))
+
+        def carrier_for(i, j):
+            c = refs[i].type or carriers[j][1]
+            return c if c in obs[j] else None
+
+        # a valuation that tells the iterations apart (falls back to any valuation)
+        q = Solve([z3.Distinct(*[r.val for r in refs])] + pre + sess.content_constraints(), 20_000) if len(refs) > 1 else Solve(pre + sess.content_constraints(), 20_000)
+        run.count(q.verdict, q.secs)
+        if q.verdict != "sat":
+            q = Solve(pre + sess.content_constraints(), 20_000)
+            run.count(q.verdict, q.secs)
+        if q.verdict != "sat":
+            run.inconc(key, "no valuation found for matching iterations to observation points")
+            continue
+        idom, iev, iref = sess.int_pair(q.model)
+        irefs = iref().loop_outputs.get(name, [])
+        tt = T
+
+        def iobs_of(iev_, tt_=tt):
+            out = []
+            for p_ in pts:
+                try:
+                    out.append(observe(iev_, p_, tt_))
+                except Cyclic:
+                    out.append(observe(iev_, p_, settle_ticks(iev_) + 2))
+            return out
+
+        iobs = iobs_of(iev)
+        n = len(refs)
+        compat = [[False] * n for _ in range(n)]
+        for i in range(n):
+            for j in range(n):
+                c = carrier_for(i, j)
+                compat[i][j] = c is not None and iobs[j].get(c) == irefs[i].val
+        perms = [pi for pi in itertools.permutations(range(n)) if all(compat[pi[j]][j] for j in range(n))]
+        if not perms:
+            if idom.corner_hits:
+                run.inconc(key, "matching valuation touches an uninterpreted corner")
+                continue
+            inputs = sess.inputs_from_model(q.model)
+            seen = [{c: v for c, v in ob.items() if v} for ob in iobs]
+            findings.append({"key": key, "what": f"loop-body result {name}: for inputs {inputs} the {n} observation points show {seen} but the iterations denote {[(r.type, r.val) for r in irefs]}: no one-to-one assignment", "kind": "loop-value", "inputs": inputs})
+            continue
+        verdicts = []
+        held = False
+        first_bad = None
+        for pi in perms[:24]:
+            diffs = [(carrier_for(pi[j], j), obs[j][carrier_for(pi[j], j)], refs[pi[j]].val) for j in range(n)]
+            neq = z3.Or(*[o != r for (_c, o, r) in diffs])
+
+            def replay(model, pi=pi):
+                idom2, iev2, iref2 = sess.int_pair(model)
+                ir2 = iref2().loop_outputs.get(name, [])
+                io2 = iobs_of(iev2)
+                bad = {}
+                for j in range(n):
+                    c = carrier_for(pi[j], j)
+                    if io2[j].get(c) != ir2[pi[j]].val:
+                        bad[f"{c}@{j}"] = (ir2[pi[j]].val, io2[j].get(c))
+                return bad, bool(idom2.corner_hits)
+
+            verdict, model, bad = decide(sess, run, key, neq, replay, extra=pre)
+            verdicts.append(verdict)
+            if verdict == "unsat":
+                held = True
+                break
+            if verdict == "violation" and first_bad is None:
+                first_bad = (pi, model, bad)
+        if held:
+            continue
+        if first_bad is not None and all(v == "violation" for v in verdicts):
+            pi, model, bad = first_bad
+            inputs = sess.inputs_from_model(model)
+            k0 = sorted(bad)[0]
+            findings.append({"key": key, "what": f"loop-body result {name}: under every assignment of the {n} observation points to iterations some value differs; e.g. for inputs {inputs} point {k0} shows {bad[k0][1]} but its iteration denotes {bad[k0][0]}", "kind": "loop-value", "inputs": inputs})
     return findings
 
 
